@@ -192,6 +192,27 @@ SEEDS = {
     "C18i-unchanged-profile-shortcut-first-bunch-only": ("C18", "two or more bunches, a step in which bunch 0 stays bit-identical while another bunch changes, wakePotential() before and after on one object: an 'unchanged profile' shortcut compares the first bunch only and returns the stored wake of the earlier train", ["C06", "C08"]),
     "C10-": ("C10", "", []),
     "C17-": ("C17", "", []),
+    # ---- round 10
+    "C01j-none-case-falls-through-weight-1-f": ("C01", "the 1-point scheme (--InterpolationPoints 1) and a displacement with a fractional part in a charged row: a compacted switch gives the single weight 1-f instead of 1, the row keeps only that share of its charge", ["C02", "C03"]),
+    "C02j-none-case-break-removed": ("C02", "the 1-point scheme and a fractional displacement: the break ending case none is gone, the single weight becomes 1-f and one element past the caller's 1-element buffer is written", ["C01", "C17"]),
+    "C03j-linear-slope-by-cancelling-cosine": ("C03", "linear RF with some 4000 and more steps per synchrotron period: the kick slope is computed as 2(1-cos(angle))/angle in single precision, which cancels (1.5 % off at 4000 steps, -9 % at 10000, no kick beyond 50000)", ["C04", "C19"]),
+    "C04j-bunch-length-from-option-alpha0": ("C04", "-f <f_s> together with --LinearRF false: the natural bunch length is computed from the alpha0 option instead of the alpha0 in force, the sinusoidal kick slope is off by their ratio, the bunch length relaxes to 1/sqrt(k)", ["C03", "C05"]),
+    "C05j-dynamic-rf-amplitude-taken-as-deviation": ("C05", "any RF noise or modulation option, however small (the dynamic RF map is built): the dynamic map hands 1+amplitude to the static kick as if the queue held a deviation, every kick is doubled, the stationary bunch is 0.74 long", ["C19", "C03", "C04"]),
+    "C06j-full-train-copied-in-bunch-order": ("C06", "a train that fills the transform buffer exactly (every bucket filled, spacing = grid width, length nb*nx, descending bucket numbers, unequal bunches): a one-copy short cut puts the profiles into the buffer in bunch order instead of bucket order", ["C10", "C18", "C07"]),
+    "C07j-csr-profile-copy-drops-last-cell": ("C07", "charge in the last cell of the position axis (a bunch reaching the upper grid edge, any arbitrary profile): updateCSR copies the profile without its last cell, wakePotential uses all of it", ["C10", "C18"]),
+    "C09j-mean-about-grid-centre": ("C09", "a grid whose extent is not symmetric about zero (--PhaseSpaceShiftX/Y, equal shifts are enough): the first moment is summed over (i - (n-1)/2) in cell units - position relative to the grid centre, widths grow by the centre offset", ["C10", "C03"]),
+    "C10j-spectrum-only-with-phase-space-records": ("C10", "--SavePhaseSpace >= 2 and at least two output steps: /CSR/Spectrum/data is appended only at the output steps that also write the phase space, its time axis and /CSR/Intensity go on at every output step", ["C12", "C14"]),
+    "C11j-start-record-range-check-symmetric": ("C11", "--InitialDistStep equal to the number of records in the file: the range check became abs(step) > records, the index N passes and is wrapped to record 0", ["C17"]),
+    "C12j-lossy-filter-on-phase-space-chunks": ("C12", "a low-density phase space (InitialDistZoom 3 and more, a weak bunch of a train) and runs whose phase-space records share chunks with different companions: a scale-offset filter on /PhaseSpace/data is lossy relative to the chunk minimum, what is read back depends on SavePhaseSpace / -n", ["C11", "C10"]),
+    "C13j-bunchcurrent-validator-per-occurrence": ("C13", "a filling pattern that starts with an empty bucket (-I 0 2e-3 1e-3): a new validator rejects a pattern without charge per occurrence of the option, the saved .cfg holds one BunchCurrent line per bucket and its first line alone is refused", ["C20"]),
+    "C14j-exit-failure-on-abort-without-file": ("C14", "a run without a results file (--run_anyway, no -o) that is interrupted: main returns EXIT_FAILURE when the abort flag is set and no file is open", ["C20"]),
+    "C15j-fp-particle-damping-ignores-fptype": ("C15", "--FPTrack 1 with --FPType 0 or 2 (no damping on the grid): the particle shift of the first approximation became -damping*energy/cell whatever the Fokker-Planck type, particles are damped while the charge around them is not", ["C04"]),
+    "C16j-collimator-radii-in-single-precision": ("C16", "a collimator opening within 1e-5 (relative) of the pipe radius: the radii became single precision, ln(outer/inner) is off by 0.1 % to 20 %, and 0 Ohm when both round to the same float", []),
+    "C17j-start-file-bunches-set-nb": ("C17", "an .h5 start file holding more bunches than the configuration has non-zero currents, plus an impedance: the loader sizes the grid by the file's bunch count, the fields read bucket numbers past the end of the vector (SIGSEGV)", ["C11"]),
+    "C18j-unrolled-product-loop-no-remainder": ("C18", "a transform length that is twice an odd number (150, 182, 250) and two wakePotential() calls with different profiles: the impedance x form factor loop handles two bins per pass without a remainder pass, bin N/2-1 keeps what the inverse transform left there", ["C06", "C07"]),
+    "C19j-record-history-capped": ("C19", "noise or modulation and more than 65536 steps between two collections of the records (outstep 0 or larger than the run, > 65 synchrotron periods at -N 1000): consumed pairs are only kept while the history holds fewer than 65536", ["C10"]),
+    "C20j-negative-cldev-returns-false": ("C20", "a negative --cldev on the command line in a build without OpenCL (where the option is accepted and ignored): the preprocessor guard now only wraps the device listing, parse() returns false, nothing runs", ["C13"]),
+    "C08j-kick-table-block-rounded-for-reader-only": ("C08", "two or more bunches, a y kick with one table per bunch (wake) and grid size x interpolation points not a multiple of 8 (3 points on 12/20/36 cells): the reader rounds the per-bunch table block up to a multiple of 8, the writer does not", ["C05", "C01", "C17"]),
 }
 
 
